@@ -479,6 +479,37 @@ def run(ctx, rep):
                 rep.problem("optimum", f"{cls} D={D}: value at the prescribed optimal point is {y}, documented optimum {opt} "
                             f"(fix_accuracy {fix})", case, "optimum:" + cls, True, y, None, "C20 optimum")
     rep.hist("rowwise_bit_exact_of_%d" % len(keys), exact_rows)
+    # ---------------- large batches ("all batch sizes"): rows of a population of > 1024 individuals equal the rows alone
+    import thefittest.benchmarks._optproblems as OPM
+    noisy_names = {e["name"] for e in TR["entries"] if e.get("noisy")} if TR else set()
+    for cls in classes:
+        if cls in noisy_names or "Noise" in cls:
+            continue
+        for n_rows, D in ((1030, 2), (2500, 10)) if not ctx.quick else ((1030, 2),):
+            lo, hi = bounds_of(cls, meta)
+            rs = np.random.RandomState(ctx.seed * 31 + len(cls) + n_rows)
+            Xl = rs.uniform(lo, hi, size=(n_rows, D))
+            try:
+                yb = np.asarray(getattr(OPM, cls)()(Xl.copy()), dtype=np.float64)
+            except Exception as e:
+                rep.problem("worker", f"{cls} D={D}: exception on a batch of {n_rows} rows: {type(e).__name__}: {e}", dict(kind="bigbatch", cls=cls, D=D, n=n_rows),
+                            "impl-exception:" + cls, True)
+                continue
+            idx = sorted(set([0, 1, 1023, 1024, 1025, n_rows - 2, n_rows - 1] + [int(v) for v in rs.randint(0, n_rows, 4)]))
+            idx = [i for i in idx if 0 <= i < n_rows]
+            rep.count("rowwise-bigbatch", (cls, D, n_rows), n=len(idx))
+            bad = None
+            if yb.shape != (n_rows,):
+                bad = f"output shape {yb.shape}"
+            else:
+                for i in idx:
+                    ya = float(np.asarray(getattr(OPM, cls)()(Xl[i:i + 1].copy()))[0])
+                    if not (np.isfinite(yb[i]) and abs(yb[i] - ya) <= ROW_RTOL * max(1.0, abs(ya))):
+                        bad = f"row {i}: {yb[i]!r} in the batch, {ya!r} alone"
+                        break
+            if bad:
+                rep.problem("rowwise", f"{cls} D={D}: in a population of {n_rows} rows, {bad}", dict(kind="bigbatch", cls=cls, D=D, n=n_rows, seed=ctx.seed),
+                            "rowwise-bigbatch:" + cls, True, None, None, "C20 row-wise")
     rep.sample(dict(family="reference", cls="Schwefel2_6", D=10, y=[float.fromhex(h) for h in ref.get(("Schwefel2_6", 10), [])]))
 
     # ---------------- S1b: symbolic-regression functions (plain functions of x)
